@@ -131,8 +131,11 @@ def differs_in(sig_a, sig_b):
     return [n for n, x, y in zip(names, sig_a, sig_b) if x != y]
 
 
-def build_use(req, funcs, tasks):
-    '''Build the Use object the way the request says.'''
+def build_use(req, funcs, tasks, cache=None):
+    '''Build the Use object the way the request says.  `cache`: intermediate
+    wrappers of earlier requests of the history (func, layers so far) -> Use;
+    a stack of wrappers that starts like an earlier one is built on top of
+    the earlier wrapper object (which is therefore decorated several times).'''
     from valjean.cosette.use import Use, using
     func = dict(funcs)[req['func']]
     via = req['via']
@@ -150,13 +153,20 @@ def build_use(req, funcs, tasks):
         return Use(inj_args=inj_args, inj_kwargs=inj_kwargs, wrapped=func,
                    deps_type=req['deps_type'], serialize=req['serialize'])
     use = func
+    prefix = (req['func'],)
     for lay in req['layers']:
+        prefix += ((lay['task'], lay['key'], lay['kwarg']),)
+        if cache is not None and prefix in cache:
+            use = cache[prefix]
+            continue
         if via == 'using':
             use = using(task=tasks[lay['task']], key=lay['key'],
                         kwarg=lay['kwarg'])(use)
         else:
             use = Use.from_func(func=use, task=tasks[lay['task']],
                                 key=lay['key'], kwarg=lay['kwarg'])
+        if cache is not None:
+            cache[prefix] = use
     return use
 
 
@@ -188,6 +198,19 @@ def use_history(seed, idx, rec):
         # a small pool of requests so that repetitions happen
         pool = [gen_use_request(rng, funcs, tasks)
                 for _ in range(rng.randint(2, 6))]
+        # requests that extend one another (same function, same first layers)
+        for req in list(pool):
+            if rng.random() < 0.4 and len(req['layers']) < 3:
+                longer = dict(req)
+                longer['layers'] = req['layers'] + [
+                    {'task': rng.randrange(len(tasks)),
+                     'key': rng.choice(['result', 'other', None]),
+                     'kwarg': None}]
+                pool.append(longer)
+        reuse = rng.random() < 0.5
+        cache = {}
+        if reuse:
+            rec.count('histories_reusing_intermediate_wrappers')
         for step in range(rng.randint(2, 12)):
             req = dict(rng.choice(pool))
             if rng.random() < 0.3:
@@ -195,7 +218,8 @@ def use_history(seed, idx, rec):
             sig = use_signature(req)
             rec.count('use_requests')
             try:
-                task = build_use(req, funcs, tasks).get_task()
+                task = build_use(req, funcs, tasks,
+                                 cache if reuse else None).get_task()
             except (ValueError, TypeError) as err:
                 rec.count('use_requests_refused')
                 rec.count('refused.' + type(err).__name__)
@@ -246,6 +270,25 @@ def use_history(seed, idx, rec):
                               f'request {req}: hard '
                               f'{sorted(t.name for t in hard)} soft '
                               f'{sorted(t.name for t in soft)}', case)
+        # tasks obtained earlier still do what their request says
+        for sig, (task, req) in seen.items():
+            want = expected_result(req, funcs, tasks, env)
+            injected = {tasks[l['task']] for l in req['layers']}
+            try:
+                update, status = task.do(env, config)
+                got = update[task.name]['result']
+            except Exception as err:  # pylint: disable=broad-except
+                rec.violation('earlier-task-raised-' + type(err).__name__,
+                              f'{req}: {err!r}', case)
+                continue
+            rec.count('earlier_tasks_executed_again')
+            deps = set(task.depends_on) | set(task.soft_depends_on)
+            if got != want or deps != injected:
+                rec.violation('earlier-task-changed-by-later-requests',
+                              f'request {req}: task {task.name!r} now '
+                              f'returns {got!r} (the request means {want!r}),'
+                              f' depends on {sorted(t.name for t in deps)}',
+                              case)
         # map()
         if rng.random() < 0.5 and seen:
             base_req = rng.choice([r for _, r in seen.values()])
